@@ -22,8 +22,11 @@ ASSUMPTIONS = [
     "struct and per-core field addresses are recomputed from the struct file "
     "by an independent reader (vf/oracle/svstruct.py)",
     "with faults: replies may be lost, delayed, duplicated or replaced by a "
-    "retryable code (no fatal codes); if a call ends in an SCP error the "
-    "only requirement left is that no byte outside the target range changed",
+    "retryable code, in a third of the cases also by a fatal code; one case "
+    "in six starts with a blackout of 5 or 10 transmissions; if a call ends "
+    "in an SCP error the only requirement left for it is that no byte outside "
+    "the target range changed, and the history carries on with the same "
+    "controller",
     "link reads/writes are given word-aligned addresses and lengths "
     "(documented ValueError otherwise)",
 ]
@@ -131,6 +134,10 @@ def strat_ops(draw, tier, faults):
     if faults:
         pe = plan_entry().filter(lambda e: all(r[0] != "fatal"
                                                for r in e["replies"]))
+        if draw(st.integers(0, 2)) == 0:
+            # replies may also carry a fatal return code: the operation is
+            # abandoned in the middle of its window, the program carries on
+            pe = plan_entry()
         case["plan"] = draw(st.lists(pe, min_size=1, max_size=40))
         if draw(st.integers(0, 5)) == 0:
             # the machine is unreachable at first: every transmission of the
